@@ -4,6 +4,7 @@ Proof: coq/Props/C13.v (what the cycle barrier orders; refutation: barrier is
 not quiescence; positive theorem for one run / one cycle).  Tie: Oblig/O_C13.v
 (barrier, hand-offs and their protection in the regenerated skeleton).  The
 unchanged code is schedule dependent: known finding."""
+import common as C
 import framework as FW
 import solver_runs as S
 
@@ -13,6 +14,53 @@ PID = "C13"
 def settings(rng, m):
     return {"iterations": rng.choice([200, 1000, 3000]), "duration_ms": 20000, "runs": rng.choice([2, 3, 4]),
             "starts": rng.choice([0, 1, 3]), "det": 1, "repeat": 3, "snap": 0}
+
+
+def holdback_input(rng):
+    n, nv = rng.randint(30, 50), rng.randint(3, 5)
+    stops = [{"id": "s%02d" % i, "location": {"lon": 7.40 + 0.40 * rng.random(), "lat": 51.85 + 0.20 * rng.random()}, "quantity": -1,
+              "duration": 60 + int(rng.random() * 240), "unplanned_penalty": 200000} for i in range(n)]
+    veh = [{"id": "v%d" % v, "start_location": {"lon": 7.6, "lat": 51.95}, "end_location": {"lon": 7.6, "lat": 51.95}, "speed": 10,
+            "capacity": rng.randint(8, 14)} for v in range(nv)]
+    return {"stops": stops, "vehicles": veh}
+
+
+def holdback_stage(chk, tier, seed):
+    """forced schedules: the worker goroutine of run k is held back (sleep in the public StartSolver event) while every inner
+    solver lingers after its last iteration, which keeps the known end-of-cycle window (finding C13-barrier) closed; the final
+    solution must not depend on which worker was slow"""
+    import json
+    import os
+    import random
+    import gen_full as GF
+    rng = random.Random(seed * 31 + 1313)
+    opts = json.load(open(os.path.join(C.CORPUS, "C16", "_neutral_options.json")))
+    n = 3 if tier == "quick" else 40
+    blocks, meta = [], {}
+    for i in range(n):
+        inp = holdback_input(rng)
+        hold = "hold runs=2 starts=%d per=40 iterations=400 linger_ms=60 hold_ms=300 maxhold=4" % rng.choice([3, 4, 4, 6])
+        blocks.append(("h%d" % i, GF.case_lines(inp, opts, {"iterations": 1})[:2] + [hold]))
+        meta["h%d" % i] = (inp, hold)
+    cf = os.path.join(C.BUILD, "c13_hold_%s.case" % tier)
+    C.write_cases(cf, blocks)
+    rc, out, err = C.run([C.HARNESS, "holdback", cf], timeout=3000, env=C.GOENV)
+    os.remove(cf)
+    chk.ob("forced schedules: harness exits normally", rc == 0, err[-300:])
+    g = C.group_lines(out)
+    ndiff = nsolves = 0
+    for cid, (inp, hold) in meta.items():
+        lines = g.get(cid, [])
+        diffs = [l for l in lines if l.startswith("hold ") and l.endswith("same false")]
+        nsolves += sum(1 for l in lines if l.startswith("hold "))
+        if diffs or not any(l == "end" for l in lines):
+            ndiff += 1
+            chk.violation({"kind": "holdback", "what": "deterministic parallel mode: holding back one worker goroutine changes the final solution "
+                           "(end-of-cycle window kept closed): %s vs %s" % (lines[:1], (diffs or lines[-1:])[:1]),
+                           "input": inp, "options": opts, "hold": hold, "lines": lines[:8]})
+    chk.ob("deterministic mode under forced schedules: %d inputs x 6 solves (one worker held back by 300 ms each) end with the same solution"
+           % n, ndiff == 0)
+    return n
 
 
 def run(tier, seed, replay=None):
@@ -41,7 +89,9 @@ def run(tier, seed, replay=None):
             chk.violation({"kind": "input", "what": "deterministic parallel runs end with different solutions",
                            "finding_shape": {"kind": "barrier_not_quiescence", "function": "parallelSolverImpl.Solve"},
                            "settings": c["settings"], "model": c["model"]})
+    nhold = holdback_stage(chk, tier, seed)
     chk.ev.cov.update({
+        "holdback_inputs": nhold,
         "evaluations": len(runs), "distinct_nontrivial": len(groups),
         "rule": "generated inputs, run_deterministically with 2-4 runs and 0-3 start solutions, fixed budget spanning several cycles, each solved 3 times; final scores compared",
         "inputs_with_differing_finals": ndiff,
